@@ -305,7 +305,8 @@ Definition do_penalize (p : params) (s : state) (typ : ptype) (val : validator) 
     let li := match typ with PDoubleSign => v_last_inactive nv | PInactive => num end in
     let nv1 := set_v_expel (set_v_status nv 0) true (if v_expel_expired nv <? expel then expel else v_expel_expired nv) li in
     let s1 := update_validator (set_queue s q') nv1 val in
-    Ok (add_balance s1 (p_penalty_to p) total)).
+    (* a non-positive amount is credited as it is (doPenalize: totalPenalty = penaltyAmount) *)
+    Ok (add_negwd (add_balance s1 (p_penalty_to p) total) (if 0 <? amount then 0 else amount))).
 
 (* processEvidences / processDoubleSignV5 for a pool of resolved double-sign
    evidences (round, signer); only those of the parent round are acted on *)
@@ -359,22 +360,24 @@ Definition block_rewards (p : params) (s : state) (residue : Z) : Z * state :=
   if 0 <? subsidies then (t2 + subsidies, sub_balance s1 (p_pool p) subsidies) else (t2, s1).
 
 (* rewardsToPool (endblock.go:142), version 5 branch *)
+Definition role_has (t : vstat) (r : Z) : bool := 0 <? k_on_count (role_stat t r).
+Definition role_ratio (p : params) (t : vstat) (r : Z) : Z := if role_has t r then by_role (p_ratio p) r else 0.
+
 Definition rewards_to_pool (p : params) (s : state) (coinbase : Z) : res state :=
   let residue0 := k_residue (st_k0 (s_stat s)) in
   let '(total, s1) := block_rewards p s residue0 in
   if total <=? 0 then Ok s1 else
-  let has r := 0 <? k_on_count (role_stat (s_stat s1) r) in
-  let ratio r := if has r then by_role (p_ratio p) r else 0 in
-  let sum := ratio 1 + ratio 2 + ratio 3 in
+  let t := s_stat s1 in
+  let sum := role_ratio p t 1 + role_ratio p t 2 + role_ratio p t 3 in
   if sum =? 0 then Crash else                                           (* QuoRem by zero *)
   let per := Z.quot total sum in
   let residue := Z.rem total sum in
   match get_val s1 coinbase with
   | None => Crash                                                       (* logging.Crit: proposer not in the validator set *)
   | Some proposer =>
-    let st1 := s_stat s1 in
-    let st2 := if has 3 then set_role_stat st1 3 (k_set_rewards (role_stat st1 3) (k_rewards (role_stat st1 3) + per * ratio 3)) else st1 in
-    let pr := per * ratio 1 + per * ratio 2 in
+    (* house share to the house pool, the chamber shares to the proposer *)
+    let st2 := set_role_stat t 3 (k_set_rewards (role_stat t 3) (k_rewards (role_stat t 3) + per * role_ratio p t 3)) in
+    let pr := per * role_ratio p t 1 + per * role_ratio p t 2 in
     let np := set_v_rewards (set_v_last_active proposer (s_number s1)) (v_dist proposer + pr) (v_total proposer + pr) (v_last_settled proposer) in
     let s2 := update_validator (set_stat s1 st2) np proposer in
     Ok (set_stat s2 (set_k0 (s_stat s2) (k_set_residue (st_k0 (s_stat s2)) residue)))
@@ -476,18 +479,20 @@ Definition distribute_rewards (p : params) (s : state) : res (option (state * li
     Ok (Some (s4, settled))))))))).
 
 (* processWithdrawQueue (endblock.go:490): pays matured records once, then discards old finished ones *)
+Definition withdraw_step (s : state) (w : wrec) : state * wrec :=
+  if w_final w <=? 0 then (add_negwd s (if w_finished w =? 0 then - w_final w else 0), set_w_finished w)
+  else if (w_completion w <? s_number s) && (w_finished w =? 0)
+       then (add_balance s (w_recipient w) (w_final w), set_w_finished w)
+       else (s, w).
+Definition withdraw_discard (p : params) (num : Z) (w : wrec) : bool :=
+  (w_finished w =? 1) && (p_retention p <? u64 (num - w_completion w)).
 Fixpoint withdraw_loop (p : params) (s : state) (q : list wrec) : state * list wrec :=
   match q with
   | [] => (s, [])
   | w :: r =>
-    let num := s_number s in
-    let '(s1, w1) :=
-      if w_final w <=? 0 then (add_negwd s (if w_finished w =? 0 then - w_final w else 0), set_w_finished w)
-      else if (w_completion w <? num) && (w_finished w =? 0)
-           then (add_balance s (w_recipient w) (w_final w), set_w_finished w)
-           else (s, w) in
+    let '(s1, w1) := withdraw_step s w in
     let '(s2, r') := withdraw_loop p s1 r in
-    if (w_finished w1 =? 1) && (p_retention p <? u64 (num - w_completion w1)) then (s2, r') else (s2, w1 :: r')
+    if withdraw_discard p (s_number s) w1 then (s2, r') else (s2, w1 :: r')
   end.
 Definition process_withdraw_queue (p : params) (s : state) : state :=
   let '(s1, q') := withdraw_loop p s (s_queue s) in set_queue s1 q'.
@@ -497,6 +502,28 @@ Definition process_withdraw_queue (p : params) (s : state) : state :=
 (* addWithdrawLog: the withdraw record (the computed extra delay for expelled validators is never used) *)
 Definition new_withdraw (p : params) (s : state) (from : Z) (val : validator) (recipient delegator amount : Z) : wrec :=
   mkW from delegator (v_addr val) recipient (s_number s) (s_number s + p_withdraw_delay p) amount amount 0.
+
+(* teWithdraw: the amount really withdrawn (everything when more than the self
+   tokens is asked for, or when the rest would fall under the self-stake minimum) *)
+Definition withdraw_amount (p : params) (old : validator) (value : Z) : Z :=
+  if v_self_token old <? value then v_self_token old
+  else if to_stake p (v_self_token old - value) <? by_role (p_min_self p) (v_role old) then v_self_token old
+  else value.
+(* teWithdraw: the validator after the withdrawal (forced offline under the minimum stakes) *)
+Definition withdraw_validator (p : params) (old : validator) (w : Z) : validator :=
+  let nst := v_self_token old - w in
+  let nss := to_stake p nst in
+  let delta := v_self_stake old - nss in
+  let offline :=
+    v_online old && ((nss <? by_role (p_min_self p) (v_role old))
+                     || (v_stake old <? u64 (by_role (p_min_stakes p) (v_role old) + u64 delta))) in
+  let nv0 := set_v_money old (v_token old - w) (v_stake old - delta) nst nss in
+  if offline then set_v_status nv0 0 else nv0.
+(* teDelegationSub: the amount really withdrawn from a delegation *)
+Definition dsub_amount (p : params) (df : dlg) (value : Z) : Z :=
+  let w0 := if d_token df <? value then d_token df else value in
+  let remain := d_token df - w0 in
+  if (0 <? remain) && (remain <? p_min_dlg_tokens p) then w0 + remain else w0.
 
 Definition take_effect (p : params) (s : state) (pt : ptx) : res state :=
   let from := pt_from pt in
@@ -528,18 +555,8 @@ Definition take_effect (p : params) (s : state) (pt : ptx) : res state :=
     end
   | AWithdraw main recipient value =>                                   (* teWithdraw *)
     match get_val s main with None => Crash | Some old =>
-    let w :=
-      if v_self_token old <? value then v_self_token old
-      else if to_stake p (v_self_token old - value) <? by_role (p_min_self p) (v_role old) then v_self_token old
-      else value in
-    let nst := v_self_token old - w in
-    let nss := to_stake p nst in
-    let delta := v_self_stake old - nss in
-    let offline :=
-      v_online old && ((nss <? by_role (p_min_self p) (v_role old))
-                       || (v_stake old <? u64 (by_role (p_min_stakes p) (v_role old) + u64 delta))) in
-    let nv0 := set_v_money old (v_token old - w) (v_stake old - delta) nst nss in
-    let nv := if offline then set_v_status nv0 0 else nv0 in
+    let w := withdraw_amount p old value in
+    let nv := withdraw_validator p old w in
     let s1 := update_validator s nv old in
     Ok (add_withdraw s1 (new_withdraw p s1 from nv recipient 0 w))
     end
@@ -564,10 +581,8 @@ Definition take_effect (p : params) (s : state) (pt : ptx) : res state :=
     match dl_get (v_dlgs v) from with
     | None => Ok s                                                      (* withdrawToken = 0: failed *)
     | Some df =>
-      let w0 := if d_token df <? value then d_token df else value in
-      if w0 <=? 0 then Ok s else
-      let remain := d_token df - w0 in
-      let w := if (0 <? remain) && (remain <? p_min_dlg_tokens p) then w0 + remain else w0 in
+      if (if d_token df <? value then d_token df else value) <=? 0 then Ok s else
+      let w := dsub_amount p df value in
       match update_delegation p s from v (- w) with
       | None => Crash                                                   (* newDFrom == nil is dereferenced *)
       | Some (s1, nv, _, _, _) =>
@@ -594,11 +609,23 @@ Fixpoint process_records (p : params) (l : list prec) (acc : state * list Z) : r
 
 (* the records in the iteration order of the staking trie; records whose key is
    not in the order table come last *)
-Fixpoint in_order (o : list (Z * Z)) (d v : Z) : bool :=
-  match o with [] => false | (a, b) :: r => ((a =? d) && (b =? v)) || in_order r d v end.
-Definition ordered_records (p : params) (l : list prec) : list prec :=
-  flat_map (fun k => match rec_get l (fst k) (snd k) with Some r => [r] | None => [] end) (p_order p)
-  ++ filter (fun r => negb (in_order (p_order p) (r_d r) (r_v r))) l.
+Fixpoint rec_take (l : list prec) (d v : Z) : option (prec * list prec) :=
+  match l with
+  | [] => None
+  | r :: t =>
+    if (r_d r =? d) && (r_v r =? v) then Some (r, t)
+    else match rec_take t d v with Some (x, t') => Some (x, r :: t') | None => None end
+  end.
+Fixpoint order_by (o : list (Z * Z)) (l : list prec) : list prec :=
+  match o with
+  | [] => l
+  | (d, v) :: r =>
+    match rec_take l d v with
+    | Some (x, l') => x :: order_by r l'
+    | None => order_by r l
+    end
+  end.
+Definition ordered_records (p : params) (l : list prec) : list prec := order_by (p_order p) l.
 
 (* endStakingPeriod (endblock.go:223) *)
 Definition end_staking_period (p : params) (s : state) : res state :=
@@ -610,7 +637,7 @@ Definition end_staking_period (p : params) (s : state) : res state :=
   | Some (s2, settled) =>
     let s3 := process_withdraw_queue p s2 in
     rbind (process_records p (ordered_records p (s_recs s3)) (s3, settled))
-          (fun '(s4, _) => Ok (set_recs_done s4 true))
+          (fun '(s4, _) => Ok (set_recs_old (set_recs s4 []) (s_recs s4)))
   end)).
 
 (* StateDB.IntermediateRoot(true): validators with no token and no stake are
@@ -641,8 +668,7 @@ Record block := mkBlock {
 Definition begin_block (p : params) (s : state) : state :=
   let s1 := set_number s (s_number s + 1) in
   if s_number s1 mod p_freq p =? 0 then
-    let lost := if s_recs_done s1 then 0 else pending (s_recs s1) in
-    set_recs_done (set_prel (set_recs (add_dropped s1 lost) []) []) false
+    set_recs_old (set_prel (set_recs (add_dropped s1 (pending (s_recs s1))) []) []) []
   else s1.
 
 Fixpoint apply_txs (p : params) (s : state) (l : list tx) : state :=
@@ -651,8 +677,16 @@ Fixpoint apply_txs (p : params) (s : state) (l : list tx) : state :=
   | t :: r => apply_txs p (match apply_tx p s t with Some s1 => s1 | None => s end) r
   end.
 
+(* A pending record whose FinalValue went negative (checkAndUpdateTotalPending...
+   with a negative delta on a total that handleWithdraw had replaced by the
+   self-token remainder) cannot be RLP-encoded: updateStakingTrie aborts half
+   way through a Go map iteration and the staking trie of the block is no
+   longer a function of the inputs.  The model stops there (finding class). *)
+Definition has_negative_record (s : state) : bool := existsb (fun r => r_final r <? 0) (s_recs s).
+
 (* EndBlock (endblock.go:51), sealing path *)
 Definition end_block (p : params) (s : state) (b : block) : res state :=
+  if has_negative_record s then Crash else
   rbind (process_evidences p s (b_evs b) []) (fun s1 =>
   rbind (rewards_to_pool p s1 (b_proposer b)) (fun s2 =>
   rbind (end_staking_period p s2) (fun s3 => Ok (finalize_block s3)))).
@@ -719,7 +753,7 @@ Definition observe (n : Z) (s : state) : obs :=
   let uni := map Z.of_nat (seq 0 (Z.to_nat n)) in
   mkObs (map (zget (s_bal s)) uni) (map (zget (s_nonce s)) uni) (map (ad_get (s_adlgs s)) uni)
         (fold_right ins_val [] (s_vals s)) (s_stat s) (s_queue s)
-        (fold_right ins_orec [] (map (fun r => (r_d r, r_v r, r_final r, map pt_id (r_txs r))) (s_recs s)))
+        (fold_right ins_orec [] (map (fun r => (r_d r, r_v r, r_final r, map pt_id (r_txs r))) (s_recs s ++ s_recs_old s)))
         (fold_right ins_pair [] (s_prel s)).
 
 (* list of the field codes on which two observations differ (empty = equal) *)
